@@ -356,6 +356,18 @@ def patho_spd_free_low(rng):
     return b
 
 
+def patho_spd_free_high(rng):
+    """an spd shell whose d column is a free primitive (remove_free_primitives leaves a fused sp shell, which carries no
+    spherical / cartesian tag)"""
+    b = gen_basis(rng, nel=1, allow_fused=False, lmax=0)
+    el = next(iter(b['elements'].values()))
+    el.setdefault('electron_shells', []).append(
+        {'function_type': rng.choice(['gto_spherical', 'gto_cartesian']), 'region': '', 'angular_momentum': [0, 1, 2], 'exponents': ['10.0', '2.0', '0.5'],
+         'coefficients': [['0.3', '0.5', '0.2'], ['0.1', '0.2', '0.7'], ['0.0', '0.0', '1.0']]})
+    b['function_types'] = whole_types(b['elements'])
+    return b
+
+
 def patho_pd_fused(rng):
     """a fused shell that does not start at s (what remove_free_primitives leaves of an spd shell with a free s column)"""
     b = gen_basis(rng, nel=1, allow_fused=False, lmax=0)
@@ -494,7 +506,7 @@ def patho_near_equal_exponents(rng):
 
 
 NOT_VALIDATOR_VALID = [patho_fused_zero_member]
-PATHOLOGICAL = [patho_dup_function, patho_contraction_on_free, patho_mixed_fused, patho_spd, patho_spd_free_low, patho_pd_fused,
+PATHOLOGICAL = [patho_dup_function, patho_contraction_on_free, patho_mixed_fused, patho_spd, patho_spd_free_low, patho_spd_free_high, patho_pd_fused,
                 patho_equal_coefficients, patho_plain_then_fused_shared, patho_cancelling, patho_unsorted_fused, patho_respelled_shared,
                 patho_p_only_primitive_in_sp, patho_tiny_edge_coefficient,
                 patho_block_general_shared_column, patho_near_equal_exponents]
